@@ -217,6 +217,13 @@ def discharge(ob: Obligation, timeout_ms=None, witness_terms=None):
         if r.status == "proved" and (r.reason or "").startswith("cross:"):
             cross[r.reason[6:]] = cross.get(r.reason[6:], 0) + 1
         if r.status == "refuted":
+            tags = [str(x) for x in vc.pc if z3.is_const(x) and x.decl().kind() == z3.Z3_OP_UNINTERPRETED and str(x).startswith("__havoc__@")]
+            if tags:
+                # the counterexample assigns a value to the result of a call the engine has no model for: not a refutation
+                if status == "proved":
+                    status = "unknown"
+                    reason = "fails only if an unmodelled call returns / raises arbitrarily: " + tags[0][len("__havoc__@"):]
+                continue
             status = "refuted"
             if r.model is not None and witness_terms:
                 witness = {k: _decode(r.model, t) for k, t in witness_terms.items()}
